@@ -4,19 +4,25 @@ import (
 	"crypto/sha256"
 	"encoding/hex"
 	"fmt"
+	"sort"
+	"strconv"
 	"strings"
 
 	"golang.org/x/tools/go/ssa"
 )
 
-// c29Groups: the fixed Diffie-Hellman groups registered in kexAlgoMap. For
-// every *dhGroup entry the field values are resolved through local variables
-// and shared group literals: p must be the result of SetString(<RFC prime>,
-// 16), pMinus1 must be Sub(P, bigOne) over the SAME P (the peer-value range
-// test 1 < Y < p-1 of diffieHellman uses pMinus1, so a bound taken from a
-// different group silently widens or narrows the accepted range), g must be
-// 2, and (algorithm name -> prime, hash) must be the RFC 4253 / RFC 8268
-// table. The primes are pinned by the SHA-256 of their hexadecimal text.
+// c29Groups: the fixed Diffie-Hellman groups registered in kexAlgoMap. The
+// init functions that (directly or through helpers of the package) store into
+// kexAlgoMap are executed symbolically (c29_sx.go); for every *dhGroup stored
+// under a constant name the field values at the time of the store are read as
+// big-number terms: p must be SetString(<RFC prime>, 16), pMinus1 must be
+// p - 1 over the SAME prime term (the peer-value range test 1 < Y < p-1 of
+// diffieHellman uses pMinus1, so a bound taken from a different group silently
+// widens or narrows the accepted range), g must be 2, and (algorithm name ->
+// prime, hash) must be the RFC 4253 / RFC 8268 table. The primes are pinned by
+// the SHA-256 of their hexadecimal text. How the literals are built (local
+// variables, shared literals, a constructor helper, big.NewInt vs SetInt64)
+// does not matter.
 func c29Groups(c *Ctx) {
 	type want struct {
 		bits int
@@ -34,79 +40,88 @@ func c29Groups(c *Ctx) {
 		"diffie-hellman-group14-sha256": {2048, g14, "SHA256"},
 		"diffie-hellman-group16-sha512": {4096, g16, "SHA512"},
 	}
-	hashName := map[int64]string{3: "SHA1", 5: "SHA256", 7: "SHA512", 6: "SHA384"}
-	// resolve a field value through loads of fields of other literals
-	var resolve func(v ssa.Value, depth int) ssa.Value
-	resolve = func(v ssa.Value, depth int) ssa.Value {
-		if depth > 5 {
-			return v
+	hashName := map[string]string{"3": "SHA1", "5": "SHA256", "7": "SHA512", "6": "SHA384"}
+	sp := c.ssaPkg("ssh")
+	if sp == nil {
+		c.fail("C29.dh-groups", "fixed groups registered", nil, "package ssh not loaded")
+		return
+	}
+	// the init functions that reach a store into kexAlgoMap
+	var roots []*ssa.Function
+	for _, mem := range sp.Members {
+		fn, ok := mem.(*ssa.Function)
+		if !ok || !strings.HasPrefix(fn.Name(), "init") || len(fn.Blocks) == 0 {
+			continue
 		}
-		if u, ok := v.(*ssa.UnOp); ok {
-			if fa, ok := u.X.(*ssa.FieldAddr); ok {
-				if al, ok := fa.X.(*ssa.Alloc); ok {
-					st := derefStruct(al.Type())
-					if st != nil {
-						if fv, ok := litFields(al)[st.Field(fa.Field).Name()]; ok {
-							return resolve(fv, depth+1)
-						}
-					}
+		hit := false
+		deepInstrs(fn, func(in ssa.Instruction) {
+			if mu, ok := in.(*ssa.MapUpdate); ok && accessPath(mu.Map) == "kexAlgoMap" {
+				hit = true
+			}
+		})
+		if hit {
+			roots = append(roots, fn)
+		}
+	}
+	sort.Slice(roots, func(i, j int) bool { return roots[i].Pos() < roots[j].Pos() })
+	type entry struct {
+		key string
+		f   map[string]string
+		at  ssa.Instruction
+	}
+	var entries []entry
+	seenEntry := map[string]bool{}
+	for _, fn := range roots {
+		sx := c29NewSX(fn)
+		sx.run()
+		if sx.why != "" {
+			c.undecided("C29.dh-groups", fnName(fn), fn, "path execution incomplete: "+sx.why)
+			continue
+		}
+		for _, p := range sx.paths {
+			for _, e := range p.events {
+				if e.kind != "mapset" || e.name != "ssh.kexAlgoMap" || e.res != "dhGroup" {
+					continue
 				}
+				key, err := strconv.Unquote(e.args[0])
+				if err != nil {
+					c.fail("C29.dh-groups", e.args[0], e.at, "a fixed DH group is registered under a name that is not a constant")
+					continue
+				}
+				sig := key + fmt.Sprint(e.fields) + c.posStr(e.at.Pos())
+				if seenEntry[sig] {
+					continue
+				}
+				seenEntry[sig] = true
+				entries = append(entries, entry{key, e.fields, e.at})
 			}
 		}
-		return v
 	}
-	// the SetString call behind a prime value
-	primeOf := func(v ssa.Value) (*ssa.Call, string) {
-		ex, ok := resolve(v, 0).(*ssa.Extract)
-		if !ok || ex.Index != 0 {
-			return nil, ""
-		}
-		cl, ok := ex.Tuple.(*ssa.Call)
-		if !ok || short(calleeName(&cl.Call)) != "(*math/big.Int).SetString" {
-			return nil, ""
-		}
-		s, ok := constString(cl.Call.Args[1])
-		b, okb := constInt(cl.Call.Args[2])
-		if !ok || !okb || b != 16 {
-			return nil, ""
-		}
-		return cl, s
-	}
-	seen := 0
-	for _, me := range c.mapUpdates("ssh", "kexAlgoMap") {
-		al, ok := stripConv(me.val).(*ssa.Alloc)
-		if !ok || typeName(al.Type()) != "dhGroup" {
-			continue
-		}
-		w, known := table[me.key]
+	seen := map[string]bool{}
+	for _, en := range entries {
+		w, known := table[en.key]
 		if !known {
-			c.fail("C29.dh-groups", me.key, me.at, "a fixed DH group is registered under a name that is not in the RFC 4253 / RFC 8268 table")
+			c.fail("C29.dh-groups", en.key, en.at, "a fixed DH group is registered under a name that is not in the RFC 4253 / RFC 8268 table")
 			continue
 		}
-		seen++
-		lf := litFields(al)
-		pCall, hexs := primeOf(lf["p"])
+		seen[en.key] = true
+		pT := en.f["p"]
+		h, a, suf, ok := c29Split(pT)
+		hexs := ""
+		if ok && h == "SetString" && len(a) == 2 && a[1] == "16" && suf == "" {
+			hexs, _ = strconv.Unquote(a[0])
+		}
 		sum := sha256.Sum256([]byte(strings.ToUpper(hexs)))
-		okP := pCall != nil && len(hexs)*4 == w.bits && hex.EncodeToString(sum[:]) == w.sha
-		c.check(okP, "C29.dh-groups", me.key+" prime", me.at, fmt.Sprintf("%d-bit Oakley prime (pinned by digest)", w.bits), "the group's prime is not the RFC prime for "+me.key)
-		// pMinus1 = Sub(P, bigOne) with the same P
-		okM := false
-		if sub, ok := resolve(lf["pMinus1"], 0).(*ssa.Call); ok && short(calleeName(&sub.Call)) == "(*math/big.Int).Sub" && len(sub.Call.Args) == 3 {
-			mc, _ := primeOf(sub.Call.Args[1])
-			okM = pCall != nil && mc == pCall && accessPath(sub.Call.Args[2]) == "bigOne"
-		}
-		c.check(okM, "C29.dh-groups", me.key+" pMinus1", me.at, "pMinus1 = p - 1 of this group's own prime", "pMinus1 is not this group's p - 1: the range test on the peer's value uses a bound from a different number")
-		okG := false
-		if gc, ok := resolve(lf["g"], 0).(*ssa.Call); ok && short(calleeName(&gc.Call)) == "(*math/big.Int).SetInt64" {
-			if k, isK := constInt(gc.Call.Args[1]); isK && k == 2 {
-				okG = true
-			}
-		}
-		c.check(okG, "C29.dh-groups", me.key+" generator", me.at, "g = 2", "the generator is not 2")
-		hv, _ := constInt(resolve(lf["hashFunc"], 0))
-		c.check(hashName[hv] == w.hash, "C29.dh-groups", me.key+" hash", me.at, w.hash, fmt.Sprintf("the exchange hash is %s, the algorithm name prescribes %s", hashName[hv], w.hash))
+		okP := hexs != "" && len(hexs)*4 == w.bits && hex.EncodeToString(sum[:]) == w.sha
+		c.check(okP, "C29.dh-groups", en.key+" prime", en.at, fmt.Sprintf("%d-bit Oakley prime (pinned by digest)", w.bits), "the group's prime is not the RFC prime for "+en.key)
+		m1 := en.f["pMinus1"]
+		okM := hexs != "" && (m1 == "Sub("+pT+",1)" || m1 == "Add("+pT+",-1)" || m1 == "Add(-1,"+pT+")")
+		c.check(okM, "C29.dh-groups", en.key+" pMinus1", en.at, "pMinus1 = p - 1 of this group's own prime", "pMinus1 is not this group's p - 1: the range test on the peer's value uses a bound from a different number")
+		c.check(en.f["g"] == "2", "C29.dh-groups", en.key+" generator", en.at, "g = 2", "the generator is not 2")
+		hv := en.f["hashFunc"]
+		c.check(hashName[hv] == w.hash, "C29.dh-groups", en.key+" hash", en.at, w.hash, fmt.Sprintf("the exchange hash is %s (crypto.Hash %s), the algorithm name prescribes %s", hashName[hv], hv, w.hash))
 	}
-	c.check(seen == len(table), "C29.dh-groups", "fixed groups registered", nil, fmt.Sprintf("%d fixed groups", seen), fmt.Sprintf("%d of the %d fixed DH groups are registered", seen, len(table)))
+	c.check(len(seen) == len(table), "C29.dh-groups", "fixed groups registered", nil, fmt.Sprintf("%d fixed groups", len(seen)), fmt.Sprintf("%d of the %d fixed DH groups are registered", len(seen), len(table)))
 	if v, ok := c.bigOneIsOne(); !ok || !v {
 		c.fail("C29.dh-groups", "bigOne", nil, "bigOne is not big.NewInt(1)")
 	} else {
